@@ -991,4 +991,71 @@ pub fn gen(g: &mut Gen) {
             }
         }
     }
+    // ---- the top of the size ranges, in every tier ------------------------------------------------
+    // (a fast path gated on a size threshold — an unrolled inner loop, a blocked product — must be
+    // exercised by the quick run as well)
+    if !g.thorough {
+        for n in [5usize, 6, 7, 8] {
+            // Cholesky over Fp: one input on which every pivot is positive (the whole factor is
+            // computed), one random symmetric input
+            let all_positive = loop {
+                let mut a: Vec<Fp> = (0..n * n).map(|_| rand_fp(g)).collect();
+                symmetrise(n, &mut a);
+                if steer_chol::<Fp>(n, &a, None).0.is_none() {
+                    break a;
+                }
+            };
+            g.count(&format!("top-of-range.chol.fp.{}x{}", n, n));
+            emit(g, "chol", "fp", n, n, &all_positive, false);
+            let mut a: Vec<Fp> = (0..n * n).map(|_| rand_fp(g)).collect();
+            symmetrise(n, &mut a);
+            emit(g, "chol", "fp", n, n, &a, false);
+            // LDLᵀ over Fp: two random symmetric inputs (present unless a pivot is exactly zero)
+            for _ in 0..2 {
+                let mut a: Vec<Fp> = (0..n * n).map(|_| rand_fp(g)).collect();
+                symmetrise(n, &mut a);
+                g.count(&format!("top-of-range.ldlt.fp.{}x{}", n, n));
+                emit(g, "ldlt", "fp", n, n, &a, false);
+            }
+            // exact rationals: L·Lᵀ of an integer lower-triangular L (identities checked exactly)
+            let mut l = vec![Rat::int(0); n * n];
+            for i in 0..n {
+                for j in 0..i {
+                    l[i * n + j] = Rat::int(g.rng.below(5) as i64 - 2);
+                }
+                l[i * n + i] = Rat::int(g.rng.below(3) as i64 + 1);
+            }
+            let mut a = vec![Rat::int(0); n * n];
+            for i in 0..n {
+                for j in 0..n {
+                    let mut sum = Rat::int(0);
+                    for k in 0..n {
+                        sum = sum + l[i * n + k].clone() * l[j * n + k].clone();
+                    }
+                    a[i * n + j] = sum;
+                }
+            }
+            g.count(&format!("top-of-range.chol+ldlt.rat.{}x{}", n, n));
+            emit(g, "chol", "rat", n, n, &a, false);
+            emit(g, "ldlt", "rat", n, n, &a, false);
+        }
+    }
+    for (rows, cols) in [(8usize, 8usize), (8, 3), (9, 2), (12, 1)] {
+        if g.thorough && rows <= 8 {
+            continue; // already part of the thorough sweep
+        }
+        for _ in 0..2 {
+            let a: Vec<Fp> = (0..rows * cols).map(|_| rand_fp(g)).collect();
+            g.count(&format!("top-of-range.qr.fp.{}x{}", rows, cols));
+            emit(g, "qr", "fp", rows, cols, &a, false);
+        }
+        if rows > max_f {
+            for kind in ["full", "zerolead", "perm", "stair"] {
+                let seed = g.rng.next() % 1_000_000_007;
+                let via = *g.rng.pick(&VIAS);
+                g.op(format!("@ qr f64 {} {} {} {} via={}", rows, cols, kind, seed, via));
+                g.count(&format!("top-of-range.qr.f64.{}x{}", rows, cols));
+            }
+        }
+    }
 }
